@@ -252,6 +252,13 @@ class Component( ComponentLevel7 ):
     for func, obj_name in provided_func_calls:
       parent._dsl.func_calls[func].add( eval(obj_name) )
 
+    # Re-evaluating the saved names above may have spawned new slice/field
+    # signals under obj (e.g. parent connects s.x.in_[0:4]); a from-scratch
+    # elaboration collects them, so register them at the top as well.
+    spawned_signals = obj._collect_all_single( lambda x: isinstance( x, Signal ) ) - added_signals
+    top._dsl.all_signals       |= spawned_signals
+    top._dsl.all_named_objects |= spawned_signals
+
     del NamedObject._elaborate_stack
 
   def _delete_component( top, obj ):
